@@ -1,6 +1,7 @@
 package main
 
 import (
+	"verif/harness/internal/c08"
 	"verif/harness/internal/c04"
 	"verif/harness/internal/c03"
 	"verif/harness/internal/c15"
@@ -17,6 +18,8 @@ import (
 )
 
 func init() {
+	checks["C08"] = c08.Run
+	workers["c08"] = c08.Worker
 	checks["C04"] = c04.Run
 	checks["C03"] = c03.Run
 	checks["C15"] = c15.Run
